@@ -46,6 +46,7 @@ type c20Log struct {
 	srv  *Server
 	ctx  context.Context // the context Serve hands to tasks (captured by the first Run)
 	stop bool
+	sigs int // signals delivered so far
 }
 
 func (l *c20Log) add(e c20Ev, under func(e *c20Ev)) {
@@ -61,10 +62,24 @@ func (l *c20Log) add(e c20Ev, under func(e *c20Ev)) {
 	l.evs = append(l.evs, e)
 }
 
-// c20Writer receives the server's log lines and the sdnotify datagrams.
+// c20Writer receives the server's log lines and the sdnotify datagrams.  The notification socket is
+// best-effort: with fail = "from-signal" every datagram written from the moment the first signal has been
+// delivered is recorded and then fails (the supervisor's socket is gone), with "always" every datagram fails.
 type c20Writer struct {
 	l      *c20Log
 	notify bool
+	fail   string
+}
+
+var errC20Notify = errors.New("write unixgram @->/run/systemd/notify: write: connection refused")
+
+func (w *c20Writer) failing() bool {
+	if !w.notify || w.fail == "" {
+		return false
+	}
+	w.l.mu.Lock()
+	defer w.l.mu.Unlock()
+	return w.fail == "always" || w.l.sigs > 0
 }
 
 func (w *c20Writer) Close() error { return nil }
@@ -82,6 +97,9 @@ func (w *c20Writer) Write(p []byte) (int, error) {
 		w.l.add(c20Ev{K: "notifyready"}, nil)
 	case w.notify && strings.Contains(s, "STATUS=started "):
 		w.l.add(c20Ev{K: "started"}, nil)
+	}
+	if w.failing() {
+		return 0, errC20Notify
 	}
 	return len(p), nil
 }
@@ -188,7 +206,7 @@ func c20Signal(s string) os.Signal {
 var c20SigCoq = map[string]string{"INT": "SIGINT", "TERM": "SIGTERM", "HUP": "SIGHUP"}
 
 // c20Serve runs the real Server.Serve in a bubble with the scripted tasks and signals.
-func c20Serve(t *testing.T, scripts []c20Script, sigs []c20Sig) (evs []c20Ev, stuck bool) {
+func c20Serve(t *testing.T, scripts []c20Script, sigs []c20Sig, notifyFail string) (evs []c20Ev, stuck bool) {
 	synctest.Test(t, func(t *testing.T) {
 		l := &c20Log{t0: time.Now()}
 		srv := NewServer(NewContext(log.New(&c20Writer{l: l}, "", 0), nil, nil))
@@ -205,7 +223,7 @@ func c20Serve(t *testing.T, scripts []c20Script, sigs []c20Sig) (evs []c20Ev, st
 		done := make(chan struct{})
 		go func() {
 			defer close(done)
-			err := srv.Serve(sigC, c20Notifier(&c20Writer{l: l, notify: true}), tasks)
+			err := srv.Serve(sigC, c20Notifier(&c20Writer{l: l, notify: true, fail: notifyFail}), tasks)
 			var code int64
 			if err != nil {
 				code = -1 // an error we did not script
@@ -220,6 +238,7 @@ func c20Serve(t *testing.T, scripts []c20Script, sigs []c20Sig) (evs []c20Ev, st
 		for _, s := range sigs {
 			time.Sleep(time.Until(l.t0.Add(time.Duration(s.At))))
 			l.add(c20Ev{K: "sig", S: s.Sig}, func(*c20Ev) {
+				l.sigs++
 				select {
 				case sigC <- c20Signal(s.Sig):
 				default:
@@ -265,11 +284,16 @@ func c20RenderErr(code int64) string {
 	return verifh.Some(verifh.N(uint64(code)))
 }
 
-func c20EmitServe(t *testing.T, out *verifh.Out, id string, scripts []c20Script, sigs []c20Sig, tags []string) {
+func c20EmitServe(t *testing.T, out *verifh.Out, id string, scripts []c20Script, sigs []c20Sig, notifyFail string, tags []string) {
 	if !out.Wants(id) {
 		return
 	}
-	evs, stuck := c20Serve(t, scripts, sigs)
+	if notifyFail == "" {
+		tags = append(tags, "notifier:healthy")
+	} else {
+		tags = append(tags, "notifier:fails-"+notifyFail)
+	}
+	evs, stuck := c20Serve(t, scripts, sigs, notifyFail)
 	var obs []string
 	for _, e := range evs {
 		switch e.K {
@@ -298,7 +322,7 @@ func c20EmitServe(t *testing.T, out *verifh.Out, id string, scripts []c20Script,
 	out.Emit(verifh.Case{
 		ID:       id,
 		Coq:      verifh.App("CServe", verifh.Nat(len(scripts)), verifh.List(obs), verifh.B(stuck)),
-		Input:    map[string]any{"tasks": scripts, "signals": sigs},
+		Input:    map[string]any{"tasks": scripts, "signals": sigs, "notify_socket_fails": notifyFail},
 		Observed: map[string]any{"log": evs, "stuck": stuck},
 		Tags:     tags,
 	})
@@ -433,8 +457,15 @@ func TestVerifC20(t *testing.T) {
 						at = 40 * c20ms
 					}
 					sigs := []c20Sig{{At: at, Sig: sg}, {At: 3600 * 1000 * c20ms / 2, Sig: "TERM"}}
-					c20EmitServe(t, out, fmt.Sprintf("c20-pair-%s-%s-%s-%s", a, b, sg, place), []c20Script{s0, s1}, sigs,
+					c20EmitServe(t, out, fmt.Sprintf("c20-pair-%s-%s-%s-%s", a, b, sg, place), []c20Script{s0, s1}, sigs, "",
 						[]string{"stream:serve-pairs", "sig:" + sg, "place:" + place, "class:" + a, "class:" + b})
+					// the same run with a notification socket that dies when the signal is delivered (every later
+					// datagram fails) or never worked: notifications are best-effort, nothing else may change
+					if verifh.Thorough() || (ai+bi+pi)%2 == 0 {
+						nf := []string{"from-signal", "from-signal", "always"}[(ai+bi+pi/2)%3]
+						c20EmitServe(t, out, fmt.Sprintf("c20-pair-%s-%s-%s-%s-notify-%s", a, b, sg, place, nf), []c20Script{s0, s1}, sigs, nf,
+							[]string{"stream:serve-pairs", "sig:" + sg, "place:" + place, "class:" + a, "class:" + b})
+					}
 				}
 			}
 		}
@@ -486,7 +517,7 @@ func TestVerifC20(t *testing.T) {
 		sort.Slice(sigs, func(a, b int) bool { return sigs[a].At < sigs[b].At })
 		// every run ends: a last signal long after everything else
 		sigs = append(sigs, c20Sig{At: 1800 * 1000 * c20ms, Sig: verifh.Pick(sr, []string{"INT", "TERM", "HUP"})})
-		c20EmitServe(t, out, id, scripts, sigs, tags)
+		c20EmitServe(t, out, id, scripts, sigs, verifh.Pick(sr, []string{"", "", "", "from-signal", "from-signal", "always"}), tags)
 	}
 
 	// ---- serve(): the HTTP listener retry loop with a scripted listener function
